@@ -177,6 +177,8 @@ def _run(pid, tier, classes, families, extra=None):
     if "nofault" in families:
         behs, _ = simulate("ServeSim_nofault.cfg", 120 if q else 1500, 45)
         scs += [behaviour_to_scenario("sim-nofault-%d" % i, b, 2 if q else 3) for i, b in enumerate(behs)]
+        # the same behaviours with a client that reads each reply only where the model's writer completes its write
+        scs += [dict(behaviour_to_scenario("sim-paced-%d" % i, b, 1 if q else 2), paced=True) for i, b in enumerate(behs) if i % 2 == 0]
         scs.append(kinds_scenario())
         scs.append(slow_scenario())
         scs.append(many_inflight_scenario(pid))
